@@ -146,8 +146,13 @@ func (i *interpreter) describePanic(v value) string {
 		if s, ok := v.v.(string); ok {
 			return fmt.Sprintf("%s(%q)", v.t, s)
 		}
-		// error values: try Error()
-		if m := i.prog.LookupMethod(v.t, nil, "Error"); m != nil {
+		// error values: try Error() (LookupMethod panics for types without it)
+		var m *ssa.Function
+		func() {
+			defer func() { recover() }()
+			m = i.prog.LookupMethod(v.t, nil, "Error")
+		}()
+		if m != nil {
 			func() {
 				defer func() { recover() }()
 				if r, ok := call(i, nil, token.NoPos, m, []value{v.v}).(string); ok {
